@@ -11,7 +11,7 @@ def cat(cs):
 def c18(tier):
     ck = Check("C18", tier)
     binary = build_harness()
-    maxlen = 5 if tier == "quick" else 6
+    maxlen = 5 if tier == "quick" else 7
     cfg = write_cfg(['Mode = "strings"', "MaxLen = %d" % maxlen, 'TrimMode = "pair"'], invariants=["Faithful"])
     rs = tlc("Codec", "s.cfg", files={"s.cfg": cfg}, timeout=2400)
     ck.add_tlc(rs)
